@@ -18,6 +18,7 @@ void DirectionFunction::setParameters(const ParameterList& params)
     //      cout << p_[j].getValue() << " " << x << " " << xi_[j] << endl;
     xt_[j].setValue((p_[j].getValue()) + x * xi_[j]);
   }
+  nbEval_++;
   function_->setParameters(xt_);
 }
 
@@ -46,6 +47,7 @@ void DirectionFunction::init(const ParameterList& p, const vector<double>& xi)
 {
   p_ = p;
   xi_ = xi;
+  nbEval_ = 0;
   if (constraintPolicy_ == AutoParameter::CONSTRAINTS_AUTO)
     autoParameter();
   else if (constraintPolicy_ == AutoParameter::CONSTRAINTS_IGNORE)
